@@ -151,6 +151,14 @@ def refreshScopesOK (b : Book) (granted : List String) : Bool :=
   let rs := decList (b.cfgv "refreshScopes")
   rs.isEmpty || rs.any granted.contains
 
+/-- has the token expired?  Opaque tokens: at the instant; JWT access tokens (cfg jwt=1) carry their expiry
+    as a whole-second claim and are honoured until that second is over (C07 reading). -/
+def tokExpired (b : Book) (t : MTok) : Bool :=
+  match t.exp with
+  | some e =>
+    if t.kind == 'A' && b.cfgv "jwt" == "1" then decide (b.now / second > e / second) else decide (b.now > e)
+  | none => false
+
 def encListI (xs : List String) : String := String.join (xs.map (fun x => "," ++ x))
 
 /-- what `IntrospectToken` says about a token, against the bookkeeping (C09 and the "inactive" halves of
@@ -161,7 +169,7 @@ def checkIntrospect (b : Book) (tok scopes o : String) : List String :=
   | none => if k == "active" then ["C09:unknown-token-reported-active"] else []
   | some t =>
     let g := (b.grant t.gid).getD default
-    let expired := match t.exp with | some e => decide (b.now > e) | none => false
+    let expired := tokExpired b t
     let covered := (decList scopes).all (fun s => s == "" || specCovers b g.gscopes s)
     let rtDisabled := t.kind == 'R' && b.cfgv "noRtIntrospect" == "1"
     if k == "active" then
@@ -266,8 +274,7 @@ def check (b : Book) (f : List String) (o : String) : List String :=
       else if ckind == "bearer" then
         match b.tok (descBase carg) with
         | some t =>
-          let expired := match t.exp with | some e => decide (b.now > e) | none => false
-          descExact carg && carg != tok && t.kind == 'A' && !t.dead && !expired
+          descExact carg && carg != tok && t.kind == 'A' && !t.dead && !tokExpired b t
         | none => false
       else false
     (if answered && !callerOK then ["C09:endpoint-answered-unauthenticated-caller"] else []) ++
